@@ -3,7 +3,7 @@
    controlled schedules (DetSched) is validated against the abstract objects.  Each trace is
    the totally ordered event list:
        [e |-> "call", th, op, arg]   [e |-> "disp", th, item]   [e |-> "ret", th, res]
-   Call / Effect / Ret consume one event each; Lin is silent (at most one per call), so a
+   Call / Effect / Ret consume one event each; Lin is silent (one per call; two for a refcount handle: take, release), so a
    trace is accepted iff some placement of the linearization points explains it - and every
    invariant of Disposables.tla is evaluated in every state on the way.
    Acceptance is per trace: the furthest position reached is kept in a TLC register.      *)
